@@ -12,6 +12,12 @@ pub use msm_mappings::navic::SigId as NavicSigId;
 pub use msm_mappings::qzss::SigId as QzssSigId;
 pub use msm_mappings::sbas::SigId as SbasSigId;
 
+/// Verification hook: the signal mapping modules (to_id/to_sig), compiled only with `--cfg rtcm_rs_verif`.
+#[cfg(rtcm_rs_verif)]
+pub mod verif_sig {
+    pub use super::msm_mappings::{bds, gal, glo, gps, navic, qzss, sbas};
+}
+
 macro_rules! msg {
     (
         id: $id:ident,
